@@ -256,6 +256,20 @@ pub fn c11(g: &mut Gen) {
         } } }
         g.group(lines);
     }
+    // conversions between the two compressed types for lengths up to usize::MAX (no plain bitvector at this size)
+    for (len, runs) in [(MAXU, vec![(12345u64, 1u64)]), (MAXU, vec![(0, 3), (1u64 << 63, 2), (MAXU - 5, 4)]), (MAXU - 1, vec![(MAXU - 3, 2)]),
+                        ((1u64 << 63) + 5, vec![(7, 1), (1u64 << 62, 5)])] {   // (an EMPTY sparse vector of this size would need 2^63 buckets)
+        let ones: Vec<String> = runs.iter().flat_map(|(a, l)| (0..*l).map(move |i| (a + i).to_string())).collect();
+        let mut lines = vec![format!("rl R build : {}", runs_calls(&runs, Some(len)))];
+        lines.push(format!("sp REFsp build {} 0 {}", len, ones.join(" ")));
+        lines.push("rl R ser".to_string()); lines.push("sp REFsp ser".to_string());
+        lines.push("sp S1 copy_of R".to_string()); lines.push("sp S1 eq REFsp".to_string()); lines.push("sp S1 ser".to_string()); lines.push("sp S1 len".to_string()); lines.push("sp S1 ones".to_string());
+        lines.push("rl R1 copy_of REFsp".to_string()); lines.push("rl R1 eq R".to_string()); lines.push("rl R1 ser".to_string());
+        lines.push("rl R2 from S1".to_string()); lines.push("rl R2 eq R".to_string()); lines.push("rl R2 len".to_string()); lines.push("rl R2 ones".to_string());
+        lines.push("sp S2 from R1".to_string()); lines.push("sp S2 eq REFsp".to_string());
+        for x in [0u64, 7, 12345, 1u64 << 63, len - 1, len] { lines.push(format!("sp S2 rank {}", x)); lines.push(format!("rl R2 rank {}", x)); }
+        g.group(lines);
+    }
     // builder call decompositions of one run list: bit at a time / by runs / split runs / via set_len
     for _ in 0..(if g.thorough { 60 } else { 15 }) {
         let nr = 1 + g.rng.below(40) as usize; let s0 = g.rng.chance(1, 2);
